@@ -131,6 +131,23 @@ class ContentE3(C03.E3):
             if st is None:
                 return out
             return [(self.put(w2, v, loc[0], fm.add(loc[1], st)), v) for w2, v in out]
+        if name in ('get', 'get_mut') and len(args) == 2 and args[1][0] == 'adt' and args[0][0] == 'slc':
+            # the checked forms: Some(sub-slice) lies where the unchecked form would
+            loc = self.where(w, args[0])
+            nm = args[1][1].rsplit('::', 1)[-1]
+            st = lin_of(args[1][3][0]) if nm in ('Range', 'RangeFrom') else (ZERO if nm in ('RangeTo', 'RangeFull') else None)
+            if loc is None or st is None:
+                return out
+            if nm == 'RangeFrom' and len(st[0]) == 1 and st[1] == 0 and st[0][0][1] == 1:
+                # `text.get(p..)` with p the index of the first byte of this very slice that is not a given ASCII byte: p < len
+                # and every byte before p is ASCII, so p is a character boundary inside the text - `None` cannot happen
+                ln = lin_of(self.slc_len(I, w, args[0]))
+                for (at, b_, off, sl, byte, rev) in markers(w, 'pos') + [m + (False,) for m in markers(w, 'cnt')]:
+                    if at == st[0][0][0] and b_ == loc[0] and off == loc[1] and sl == ln and rev is False \
+                            and isinstance(byte, tuple) and byte[0] == 'ne' and byte[1] < 0x80:
+                        out = [(w2, v) for w2, v in out if not (v[0] == 'adt' and v[2] == 0)]
+            return [(self.put(w2, v[3][0], loc[0], fm.add(loc[1], st)) if (v[0] == 'adt' and v[2] == 1 and v[3] and v[3][0][0] == 'slc') else w2, v)
+                    for w2, v in out]
         if rp.endswith('utils::split_at_mut') or p.endswith('utils::split_at_mut'):
             loc = self.where(w, args[0])
             mid = lin_of(args[1])
@@ -141,7 +158,27 @@ class ContentE3(C03.E3):
                     w2 = self.put(w2, v[1][1], loc[0], fm.add(loc[1], mid))
                 res.append((w2, v))
             return res
-        if p == 'core::slice::<impl [T]>::iter' or (name == 'into_iter' and args and args[0][0] == 'slc'):
+        if name == 'take_while' and len(args) == 2 and args[0][0] == 'iterv' and tr == 'core::iter::traits::iterator::Iterator':
+            pred = C03.searched_pred(I, args[1])
+            loc = self.where(w, args[0])
+            if pred and loc is not None:
+                # the adaptor stops at the first byte that fails the predicate
+                stop = ('ne', pred[0]) if pred[1] == 'eq' else pred[0]
+                return [(self.add(w2, _mk('tw', (repr(v), stop))), v) for w2, v in out]
+            return out
+        if name == 'count' and args and args[0][0] == 'iterv' and tr == 'core::iter::traits::iterator::Iterator':
+            it = args[0]
+            loc = self.where(w, it)
+            tws = [m for m in markers(w, 'tw') if m[0] == repr(it)]
+            res = []
+            for w2, v in out:
+                if loc is not None and len(tws) == 1 and v[0] == 'sym' and it[1] and not any(m[0] == repr(it) for m in markers(w, 'rev')):
+                    # `take_while(b == c).count()` from the start of a located slice: the index of the first byte that is not c,
+                    # or the length when there is none ('cnt' marker: like 'pos', but the index may equal the length)
+                    w2 = self.add(w2, _mk('cnt', (v[1], loc[0], loc[1], lin_of(it[1][0]), tws[0][1])))
+                res.append((w2, v))
+            return res
+        if p in ('core::slice::<impl [T]>::iter', 'core::str::<impl str>::bytes') or (name == 'into_iter' and args and args[0][0] == 'slc'):
             loc = self.where(w, args[0])
             if loc is None:
                 return out
